@@ -14,6 +14,37 @@ import (
 // ---------------------------------------------------------------------------------------------
 // C10 — the no-delete annotation protects from removal, and from nothing else
 
+// LikeAnyOther re-labels, for scans whose view holds a protected (annotated) node, every
+// disagreement between the scan and the reference decision — which knows nothing about the
+// annotation — as a C10 violation: a protected node counts, is tainted and is untainted like any
+// other node, however long it has been tainted.
+type LikeAnyOther struct{ D *Decisions }
+
+func (m LikeAnyOther) Key() string { return m.D.Key() }
+func (m LikeAnyOther) AfterScan(ctx *h.ScanCtx) []h.Violation {
+	var out []h.Violation
+	inner := m.D.AfterScan(ctx)
+	protected := false
+	for _, g := range ctx.Groups {
+		for _, n := range g.Nodes {
+			if _, f := h.HasTaint(n, h.ForceTaintKey); !f && n.Annotations[h.NoDeleteKey] != "" {
+				protected = true
+			}
+		}
+	}
+	if !protected {
+		return nil
+	}
+	ctx.H.Cov["c10.scans-with-protected-node"]++
+	for _, v := range inner {
+		if strings.Contains(v.Sig, "float-equality") {
+			continue
+		}
+		out = append(out, h.Violation{Prop: "C10", Sig: "C10/not-like-any-other-node/" + v.Sig, Msg: v.Msg + " (the reference decision ignores the no-delete annotation)"})
+	}
+	return out
+}
+
 func c10Scenario(name string, strip bool, minNodes int, world string) *h.Scenario {
 	g := StdGroup("g1")
 	g.Opts.MinNodes = minNodes
@@ -165,7 +196,7 @@ func init() {
 			"non-trivial = scans holding an annotated node past its grace period or one conjunct from removal; distinct = (slot, class, node, pods, age)",
 		Scenarios: C10Scenarios,
 		Monitors: func() []h.Monitor {
-			return []h.Monitor{AnnotationSafety{}, &NearMiss{Seen: map[string]struct{}{}}}
+			return []h.Monitor{AnnotationSafety{}, LikeAnyOther{NewDecisions()}, &NearMiss{Seen: map[string]struct{}{}}}
 		},
 		Bound: func(tier string) int {
 			if tier == "thorough" {
